@@ -216,7 +216,9 @@ def replay(prop, r):
             info["reproduced"] = any(a <= p < z for p in poss for (a, z) in regs)
         elif kind == "entry_at":
             want = b(text, exp["pos"])
-            hit = [e for e in ents if e["pos"] == want]
+            lo = b(text, exp.get("pos_lo", exp["pos"]))
+            hi = b(text, exp.get("pos_hi", exp["pos"]))
+            hit = [e for e in ents if lo <= e["pos"] <= hi]
             ok = bool(hit)
             if ok and exp.get("entry_kind") == "StructuredNew":
                 ok = hit[0]["kind"] == "StructuredNew" and hit[0]["token7"] == exp["token7"]
